@@ -284,4 +284,39 @@ example : Registry.WellFormed demoRegistry (0 : ℕ) where
   paths := by decide
   defined := fun _ => rfl
 
+/-! ### the convenience class `EulerianFieldIO` -/
+
+/-- C17 (convenience class): the origin `EulerianFieldIO` derives from a position field with lower corner (x, y, z) is
+(z, y, x): array-axis order, the order `define_eulerian_grid` documents -/
+theorem C17_eulerian_field_io_origin_zyx (x y z dx : ρ) (g : List ρ) :
+    (eulerianFieldIOParams [x, y, z] dx g).origin = [z, y, x] ∧ (eulerianFieldIOParams [x, y] dx g).origin = [y, x] ∧
+    (eulerianFieldIOParams [x, y, z] dx g).dx = [dx, dx, dx] ∧ (eulerianFieldIOParams [x, y, z] dx g).gridSize = g :=
+  ⟨rfl, rfl, rfl, rfl⟩
+
+/-- C17 (convenience class, round trip across classes): a file saved by a registry whose grid parameters were derived
+the `EulerianFieldIO` way loads, with every field restored and the stored time returned, into any registry of the same
+structure that was given the origin in z-y-x order (`corner.reverse`) through `define_eulerian_grid` -/
+theorem C17_eulerian_field_io_roundtrip (close : List ρ → List ρ → Bool) (hclose : ∀ l, close l l = true)
+    (corner : List ρ) (dx : ρ) (g : List ρ) (r r0 : Registry α ρ) (t : τ)
+    (hr : r.params = eulerianFieldIOParams corner dx g)
+    (hr0 : r0.params = ⟨corner.reverse, corner.map fun _ => dx, g⟩)
+    (hwf : Registry.WellFormed r t) (hdim : r0.dim = r.dim) (hgrid : r0.gridShape = r.gridShape)
+    (hdef : r0.eulDefined = r.eulDefined) (heul : List.Forall₂ EulField.Like r0.eul r.eul)
+    (hlag : List.Forall₂ LagGrid.Like r0.lag r.lag) :
+    ∃ r', load close r0 (save r t) = .ok (r', t) ∧
+      List.Forall₂ EulField.Restored r'.eul r.eul ∧ List.Forall₂ LagGrid.Restored r'.lag r.lag :=
+  C17_roundtrip_registry close hclose r r0 t hwf ⟨hdim, hgrid, hdef, by rw [hr, hr0]; rfl, heul, hlag⟩
+
+/-- C17 (convenience class, rejection): a reader that was given the lower corner in the MIRRORED (x-y-z) order refuses
+the file whenever the corner is not `allclose` to its own reversal — never a normal return with the grid misplaced -/
+theorem C17_eulerian_field_io_mirrored_origin_refused (close : List ρ → List ρ → Bool)
+    (corner : List ρ) (dx : ρ) (g : List ρ) (r r0 : Registry α ρ) (t : τ)
+    (hr : r.params = eulerianFieldIOParams corner dx g) (hdef : r.eulDefined = true)
+    (hr0 : r0.params.origin = corner) (hne : r0.eul.isEmpty = false)
+    (hbad : close corner corner.reverse = false) :
+    ∀ res, load close r0 (save r t) ≠ .ok res := by
+  apply C17_reject_origin close r0 (save r t) r.params hne
+  · simp [save, hdef]
+  · rw [hr0, hr]; exact hbad
+
 end Sopht.Props.C17
